@@ -167,5 +167,13 @@ Proof.
   - intros H y Hy. apply wires_eqb_eq. auto.
   - intros H y Hy. apply wires_eqb_eq. auto.
 Qed.
+Lemma b_table_iff ls o : b_table ls o = true <-> P_table ls o.
+Proof.
+  unfold b_table, P_table. rewrite forallb_forall. split.
+  - intros H k x w Hk Hx Hw. apply seq0_in in Hk. specialize (H k Hk). rewrite forallb_forall in H.
+    specialize (H x Hx). rewrite forallb_forall in H. specialize (H w Hw). apply N.leb_le. assumption.
+  - intros H k Hk. apply seq0_in in Hk. rewrite forallb_forall. intros x Hx.
+    rewrite forallb_forall. intros w Hw. apply N.leb_le. auto.
+Qed.
 Theorem c08_ok_iff ls o : c08_ok ls o = true <-> P08 ls o.
-Proof. unfold c08_ok, P08. rewrite andb_true_iff, b_faithful_iff, b_direct_iff. tauto. Qed.
+Proof. unfold c08_ok, P08. rewrite !andb_true_iff, b_faithful_iff, b_direct_iff, b_table_iff. tauto. Qed.
